@@ -20,8 +20,8 @@ fn main() {
     let mut report = Report::new(
         "C18",
         args.seed,
-        "the C17 boundary family (each history once with pruning on and once off, identical for every seed) followed by random commit histories (as C17) on a store with pruning on (even cases) / off (odd cases); non-trivial = >= 3 commits, \
-         a reset or delete hit existing data and an entity or partition was re-created after having been emptied; distinct by history text",
+        "the C17 boundary family (each history once with pruning on and once off, identical for every seed) followed by random commit histories (as C17) on a store with pruning on (even cases) / off (odd cases); non-trivial = random history with >= 3 commits, \
+         a reset or delete hit existing data and an entity or partition was re-created after having been emptied, or boundary history with >= 2 commits removing existing data; distinct by history text",
     );
     let mut cw = CaseWriter::new("RV.Corr.C18_run RV.Model.C17_Jmt RV.Model.C18_Store", "check18");
     let root = Rng::new(args.seed);
@@ -80,7 +80,7 @@ fn main() {
         }
         report.count_n("commits", n as u64);
         let canon = coq_list(commits.iter().map(coq_commit));
-        report.case(&format!("{}{}", pruning, canon), n >= 3 && removed_existing && recreated);
+        report.case(&format!("{}{}", pruning, canon), (n >= 3 && removed_existing && recreated) || (boundary.is_some() && n >= 2 && removed_existing));
         let input = json!({"pruning": pruning, "commits": canon});
         let out = match run_history(&commits, pruning, true) {
             Ok(o) => o,
